@@ -273,7 +273,7 @@ def main(argv=None):
                 lines.append(f"KNOWN-FINDING: property={prop} {ke['text']}")
             continue
         viol += 1
-        if reported >= 8:
+        if reported >= int(os.environ.get('VERIF_MAXREPORT', '8')):
             continue
         reported += 1
         rp = write_replay(prop, modname, i, name, inst, obs[0], mutant)
